@@ -82,6 +82,186 @@ RETRY_SCID = bytes(range(0x60, 0x68))
 
 
 # ------------------------------------------------------------------------------------------
+# tolerance of the harness' own code (round s05c).  Two rules:
+#  * a LABELLED PEEK at private state of the implementation (snapshot for the model ties, table oracle) never raises: a
+#    missing key / attribute / index becomes the distinguished token MISSING (a missing list: length MISSING), so that a
+#    changed private layout shows up as a model/impl disagreement (or as nothing, when the model does not depend on it) and
+#    never stops the search;
+#  * an exception raised INSIDE HARNESS CODE while one case / one world is being run is recorded as a harness problem of
+#    that case (kind "harness", once per exception class and harness site, counted in the evidence) and the run goes on
+#    with the next case: the search for a concrete failing input is never cut short by the harness itself.
+MISSING = -1
+PEEK_MISSES = collections.Counter()
+HARNESS_PROBLEMS = collections.Counter()
+_HARNESS_CTX = [None]
+_FAILED = set()
+FAILED = ("HARNESS-FAILED",)
+_PEEK_EXC = (KeyError, AttributeError, IndexError, TypeError, ValueError)
+
+
+def peek(f, default=MISSING, label=None):
+    """labelled peek: f() or the distinguished token"""
+    try:
+        return f()
+    except _PEEK_EXC as e:
+        PEEK_MISSES[label or ("%s(%s)" % (type(e).__name__, str(e)[:40]))] += 1
+        return default
+
+
+def peek_list(f, label=None):
+    """[len] + items of a private list, or [MISSING] when it cannot be read"""
+    try:
+        xs = [int(x) for x in f()]
+    except _PEEK_EXC as e:
+        PEEK_MISSES[label or ("%s(%s)" % (type(e).__name__, str(e)[:40]))] += 1
+        return [MISSING]
+    return [len(xs)] + xs
+
+
+def _harness_site(exc):
+    """(file, function, line) of the innermost traceback frame, and whether it lies in the implementation"""
+    tb = exc.__traceback__
+    last = None
+    while tb is not None:
+        last = tb
+        tb = tb.tb_next
+    if last is None:
+        return "?", False
+    co = last.tb_frame.f_code
+    fn = co.co_filename
+    in_impl = "aioquic" in fn and "/harness/" not in fn
+    return "%s:%s:%d" % (os.path.basename(fn), co.co_name, last.tb_lineno), in_impl
+
+
+def harness_problem(suite, case, exc):
+    """An exception inside harness code while running ONE case: recorded (once per class + site as a violation of kind
+    "harness", always counted), the run continues."""
+    import traceback
+    site, in_impl = _harness_site(exc)
+    key = "%s/%s@%s" % (suite, type(exc).__name__, site)
+    HARNESS_PROBLEMS[key] += 1
+    ctx = _HARNESS_CTX[0]
+    if ctx is None or HARNESS_PROBLEMS[key] > 1:
+        return
+    try:
+        small = corr._short(case, 4000)
+    except Exception:
+        small = repr(case)[:2000]
+    ctx.violation("harness", "%s: harness code raised %r for this case (innermost frame %s%s); the case is skipped, the run "
+                  "continues" % (suite, exc, site, ", inside the implementation, reached by a direct harness call" if in_impl else ""),
+                  small, signature={"harness_exception": type(exc).__name__, "site": site, "suite": suite},
+                  extra={"traceback": "".join(traceback.format_exception(type(exc), exc, exc.__traceback__))[-3000:]}, no_input=True)
+
+
+def tolerant(suite):
+    """decorator for the observe functions of the ties: returns FAILED (and remembers it) when harness code raises"""
+    def deco(f):
+        def g(case, *a, **kw):
+            try:
+                k = suite + ":" + _key(case)
+            except Exception:
+                k = None
+            if k is not None and k in _FAILED:
+                return FAILED
+            try:
+                return f(case, *a, **kw)
+            except core.BuildError:
+                raise
+            except Exception as e:  # noqa: BLE001 -- harness failure for this case only
+                harness_problem(suite, case, e)
+                if k is not None:
+                    if len(_FAILED) > 20000:
+                        _FAILED.clear()
+                    _FAILED.add(k)
+                return FAILED
+        g.__name__ = getattr(f, "__name__", "observe")
+        g.__doc__ = f.__doc__
+        return g
+    return deco
+
+
+def guarded_world(suite, case, f):
+    """run one world f(); a harness exception is recorded for `case` (a dict or a callable returning it); -> f() or None"""
+    try:
+        return f()
+    except core.BuildError:
+        raise
+    except Exception as e:  # noqa: BLE001
+        try:
+            c = case() if callable(case) else case
+        except Exception:
+            c = None
+        harness_problem(suite, c, e)
+        return None
+
+
+class _CtxProxy:
+    """ctx as seen by a TSuite: a `correspondence` report whose case FAILS the property oracle itself (the suite's oracle is
+    de-duplicated per signature over the whole run, so corr.Suite sees "oracle passes" for the 2nd, 3rd ... input of a class
+    that has already been reported as impl-violation) is not a model/impl disagreement with no failing input: it is counted as
+    a further input of the reported class instead of being mislabelled."""
+
+    def __init__(self, ctx, suite):
+        self.__dict__["_ctx"], self.__dict__["_suite"] = ctx, suite
+
+    def __getattr__(self, k):
+        return getattr(self._ctx, k)
+
+    def __setattr__(self, k, v):
+        setattr(self._ctx, k, v)
+
+    def violation(self, kind, what, case, signature=None, extra=None, no_input=False):
+        raw = getattr(self._suite, "raw_oracle", None)
+        if kind == "correspondence" and raw is not None and isinstance(case, dict):
+            try:
+                bad = raw(case)
+            except Exception:  # noqa: BLE001
+                bad = None
+            if bad:
+                self._suite.dup_of_reported[json.dumps(bad[1], sort_keys=True)] += 1
+                return False
+        return self._ctx.violation(kind, what, case, signature=signature, extra=extra, no_input=no_input)
+
+
+class TSuite(corr.Suite):
+    """corr.Suite whose cases may fail inside harness code: those are recorded by `observe` (tolerant) and left out of the
+    comparison; shrinking never aborts on them."""
+
+    def __init__(self, *a, observe=None, **kw):
+        corr.Suite.__init__(self, *a, **kw)
+        self.ctx = _CtxProxy(self.ctx, self)
+        self.observe = observe
+        self.harness_failed = 0
+        self.raw_oracle = None
+        self.dup_of_reported = collections.Counter()
+
+    def _failed(self, case):
+        try:
+            return self.observe is not None and self.observe(case) is FAILED
+        except core.BuildError:
+            raise
+        except Exception as e:  # noqa: BLE001
+            harness_problem(self.name, case, e)
+            return True
+
+    def disagree(self, case):
+        if self._failed(case):
+            return False, None, None
+        try:
+            return corr.Suite.disagree(self, case)
+        except core.BuildError:
+            raise
+        except Exception as e:  # noqa: BLE001
+            harness_problem(self.name, case, e)
+            return False, None, None
+
+    def run(self, cases, label=""):
+        good = [c for c in cases if not self._failed(c)]
+        self.harness_failed += len(cases) - len(good)
+        return corr.Suite.run(self, good, label)
+
+
+# ------------------------------------------------------------------------------------------
 # byte helpers (own encoders: nothing from aioquic's parsers is used to build hostile input)
 def varint(v, size=None):
     if size is None:
@@ -349,6 +529,33 @@ class Lab:
             self.hp = sim.HalfPair.create(seed, puppet_side=peer, rewrite=rewrite, **kw)
             self.pair = p = self.hp.pair
             self.puppet = self.hp.puppet
+        elif state == "trail":
+            # real handshake with the hidden real peer; in its packets of type spec["trail"]["ptype"] further frames are
+            # placed AFTER the frame spec["trail"]["after"] (same packet, re-protected with the same number and keys)
+            self.trail = make_trailing_rewrite(spec["trail"])
+            self.hp = sim.HalfPair.create(seed, puppet_side=peer, rewrite=self.trail, **kw)
+            self.pair = p = self.hp.pair
+            self.puppet = self.hp.puppet
+        elif state == "finishing":
+            # one step before the end of the handshake: the hidden real peer's Handshake packets that carry CRYPTO (client:
+            # its Finished; server: EncryptedExtensions .. Finished) are HELD BACK; the puppet can deliver them ("@held:..."
+            # placeholders) together with anything else in the same packet
+            self.held = held = []
+
+            def hold(pkt):
+                if pkt.type == "handshake" and any(f.name == "CRYPTO" for f in pkt.frames):
+                    held.append([f for f in pkt.frames if f.name == "CRYPTO"])
+                    return False
+                return None
+            self.hp = sim.HalfPair.create(seed, puppet_side=peer, rewrite=hold, **kw)
+            self.pair = p = self.hp.pair
+            p.connect(pump=True)
+            p.run(lambda q: False, max_time=0.05)
+            if not held:
+                raise RuntimeError("finishing: the hidden %s sent no Handshake CRYPTO" % peer)
+            p.network.muted.add(peer)
+            p.network.isolated.add(peer)
+            self.puppet = self.hp.puppet
         else:
             self.pair = p = sim.Pair(seed, **kw)
             if not p.handshake():
@@ -413,7 +620,12 @@ class Lab:
             p.deliver_now(bytes.fromhex(op[1]), ("10.9.9.9", 4444), self.subject)
         elif k == "pkt":
             opts = dict(op[3]) if len(op) > 3 else {}
-            self.send_packet(op[1], bytes.fromhex(op[2]), opts)
+            if op[2] == "@held:init":
+                # every held packet but the last one, each as its own packet
+                for i in range(len(self.held) - 1):
+                    self.send_packet(op[1], self.resolve(["@held:%d" % i]), opts)
+            else:
+                self.send_packet(op[1], self.resolve(op[2].split(",")) if op[2].startswith("@") else bytes.fromhex(op[2]), opts)
         elif k == "long":
             # Initial-key protected long header packet built by build_long
             o = dict(op[2])
@@ -449,6 +661,43 @@ class Lab:
                   max_steps=3000)
         else:
             raise ValueError("unknown op %r" % (k,))
+
+    def resolve(self, frames):
+        """payload bytes of a frame list: hex strings, or placeholders that refer to the CRYPTO frames held back in a
+        "finishing" world: @held:i / @held:all (the CRYPTO frames of the i-th / of every held packet), @fin_dup (the last
+        held CRYPTO frame once more), @end_empty (zero-length CRYPTO at the end of the held data), @zero_empty (zero-length
+        CRYPTO at offset 0), @end_new:HEX (new bytes after the held data), @end_overlap:N (the last N held bytes again),
+        @end_far:HEX (bytes 100 beyond the end)"""
+        from sim import F
+        out = b""
+        held = getattr(self, "held", None) or []
+        allf = [f for pk in held for f in pk]
+        end = max([f.fields["offset"] + len(f.fields["data"]) for f in allf] or [0])
+        for fr in frames:
+            if not fr.startswith("@"):
+                out += bytes.fromhex(fr)
+                continue
+            name, _, arg = fr[1:].partition(":")
+            if name == "held":
+                pks = held if arg == "all" else [held[int(arg)]] if held else []
+                out += b"".join(f.raw for pk in pks for f in pk)
+            elif name == "fin_dup":
+                out += allf[-1].raw if allf else b""
+            elif name == "end_empty":
+                out += F.crypto(end, b"")
+            elif name == "zero_empty":
+                out += F.crypto(0, b"")
+            elif name == "end_new":
+                out += F.crypto(end, bytes.fromhex(arg))
+            elif name == "end_far":
+                out += F.crypto(end + 100, bytes.fromhex(arg))
+            elif name == "end_overlap":
+                n = int(arg)
+                data = b"".join(f.fields["data"] for f in allf[-1:])
+                out += F.crypto(max(0, end - n), data[-n:] if n else b"")
+            else:
+                raise ValueError("unknown placeholder %r" % (fr,))
+        return out
 
     def send_retry(self, token_len, o):
         from aioquic.quic.packet import get_retry_integrity_tag
@@ -631,6 +880,15 @@ def run_ops(case, settle=True):
     return lab, judge(lab)
 
 
+def oracle_world(report, suite, case):
+    """one oracle world: run_ops + judge + report; an exception in harness code is recorded for this case only"""
+    def f():
+        _, probs = run_ops(case)
+        report(probs, case, suite)
+        return probs
+    return guarded_world(suite.split(":")[0], case, f)
+
+
 def judge(lab):
     probs = []
     seen = set()
@@ -668,41 +926,54 @@ def _recv_tokens(r):
     return t
 
 
+RECV_MISSING = [MISSING, MISSING, 0, 0]      # a CRYPTO receiver that cannot be read: highest_offset / _buffer_start = MISSING
+
+
+def _conn_scalars(conn, ctx):
+    mdf = peek(lambda: conn._configuration.max_datagram_frame_size, MISSING, "max_datagram_frame_size")
+    ps = peek(lambda: conn._peer_cid.sequence_number, MISSING, "_peer_cid")
+    return [peek(lambda: int(conn._is_client), MISSING, "_is_client"),
+            peek(lambda: conn._local_max_data.used, MISSING, "_local_max_data"),
+            peek(lambda: conn._local_max_data.value, MISSING, "_local_max_data"),
+            peek(lambda: conn._local_max_streams_bidi.value, MISSING, "_local_max_streams_bidi"),
+            peek(lambda: conn._local_max_streams_uni.value, MISSING, "_local_max_streams_uni"),
+            peek(lambda: conn._local_max_stream_data_bidi_remote, MISSING, "_local_max_stream_data_bidi_remote"),
+            peek(lambda: conn._local_max_stream_data_uni, MISSING, "_local_max_stream_data_uni"),
+            -1 if mdf is None else mdf,
+            peek(lambda: conn._host_cid_seq, MISSING, "_host_cid_seq"), ctx,
+            peek(lambda: conn._remote_active_connection_id_limit, MISSING, "_remote_active_connection_id_limit"),
+            0 if ps is None else ps,
+            peek(lambda: conn._peer_retire_prior_to, MISSING, "_peer_retire_prior_to"),
+            peek(lambda: len(conn._retire_connection_ids), MISSING, "_retire_connection_ids"),
+            peek(lambda: conn._local_active_connection_id_limit, MISSING, "_local_active_connection_id_limit")]
+
+
 def snapshot_tokens(conn, epoch, dcid):
+    """Labelled peek at the connection's private state (the model's abstract state).  Never raises: what cannot be read is
+    the token MISSING."""
     from aioquic import tls
     streams = []
-    for sid, s in conn._streams.items():
-        fs = s.receiver._final_size
-        streams.append([sid, s.max_stream_data_local, s.receiver.highest_offset, -1 if fs is None else fs])
+    for sid, s in peek(lambda: list(conn._streams.items()), [], "_streams"):
+        fs = peek(lambda: s.receiver._final_size, MISSING, "receiver._final_size")
+        streams.append([sid, peek(lambda: s.max_stream_data_local, MISSING, "max_stream_data_local"),
+                        peek(lambda: s.receiver.highest_offset, MISSING, "receiver.highest_offset"), -1 if fs is None else fs])
     ctx = -1
-    for c in conn._host_cids:
-        if c.cid == dcid:
-            ctx = c.sequence_number
-    mdf = conn._configuration.max_datagram_frame_size
-    ps = conn._peer_cid.sequence_number
-    t = [int(conn._is_client), conn._local_max_data.used, conn._local_max_data.value,
-         conn._local_max_streams_bidi.value, conn._local_max_streams_uni.value,
-         conn._local_max_stream_data_bidi_remote, conn._local_max_stream_data_uni,
-         -1 if mdf is None else mdf, conn._host_cid_seq, ctx, conn._remote_active_connection_id_limit,
-         0 if ps is None else ps, conn._peer_retire_prior_to, len(conn._retire_connection_ids),
-         conn._local_active_connection_id_limit]
-
-    def lst(xs):
-        xs = list(xs)
-        return [len(xs)] + xs
-
-    t += lst(c.sequence_number for c in conn._host_cids)
-    t += lst(c.sequence_number for c in conn._peer_cid_available)
-    t += lst(sorted(conn._peer_cid_sequence_numbers))
-    t += lst(int.from_bytes(k, "big") for k in conn._local_challenges.keys())
-    t += lst(sorted(conn._streams_finished))
-    t += lst(c.sequence_number for c in conn._host_cids
-             if not c.was_sent and c.sequence_number > getattr(conn, "_host_cid_seq_sent", -1))
+    for c in peek(lambda: list(conn._host_cids), [], "_host_cids"):
+        if peek(lambda: c.cid, None, "cid") == dcid:
+            ctx = peek(lambda: c.sequence_number, MISSING, "sequence_number")
+    t = _conn_scalars(conn, ctx)
+    t += peek_list(lambda: (c.sequence_number for c in conn._host_cids), "_host_cids")
+    t += peek_list(lambda: (c.sequence_number for c in conn._peer_cid_available), "_peer_cid_available")
+    t += peek_list(lambda: sorted(conn._peer_cid_sequence_numbers), "_peer_cid_sequence_numbers")
+    t += peek_list(lambda: (int.from_bytes(k, "big") for k in conn._local_challenges.keys()), "_local_challenges")
+    t += peek_list(lambda: sorted(conn._streams_finished), "_streams_finished")
+    t += peek_list(lambda: (c.sequence_number for c in conn._host_cids
+                            if not c.was_sent and c.sequence_number > getattr(conn, "_host_cid_seq_sent", -1)), "_host_cids")
     t += [len(streams)]
     for s in streams:
         t += s
     for ep in (tls.Epoch.INITIAL, tls.Epoch.HANDSHAKE, tls.Epoch.ONE_RTT):
-        t += _recv_tokens(conn._crypto_streams[ep].receiver)
+        t += peek(lambda: _recv_tokens(conn._crypto_streams[ep].receiver), RECV_MISSING, "_crypto_streams[%s]" % ep.name)
     # self.tls: configuration + state tokens of the TLS message-layer model (TlsRecv.rd_cfg_ctx)
     t += c05_tlsmsg.snapshot(conn.tls)
     return t
@@ -716,6 +987,7 @@ def _key(case):
     return json.dumps(case, sort_keys=True)
 
 
+@tolerant("frames")
 def frames_observe(case):
     """Run prefix ops, snapshot, deliver the final packet, observe.  Returns (tokens, expected)."""
     k = _key(case)
@@ -728,7 +1000,7 @@ def frames_observe(case):
     subj = lab.subject
     conn = subj.conn
     epoch = case["epoch"]
-    payload = b"".join(bytes.fromhex(f) for f in case["frames"])
+    payload = lab.resolve(case["frames"])
     opts = case.get("opts", {})
     nq0 = len([e for e in subj.qlog_events() if e["name"] == "transport:packet_received"])
     dcid = lab.puppet.default_dcid()
@@ -786,12 +1058,18 @@ def frames_observe(case):
 
 
 def frames_encode(case):
-    tokens, _, _ = frames_observe(case)
+    r = frames_observe(case)
+    if r is FAILED:
+        return [9]
+    tokens, _, _ = r
     return tokens if tokens is not None else [9]
 
 
 def frames_impl(case):
-    tokens, exp, _ = frames_observe(case)
+    r = frames_observe(case)
+    if r is FAILED:
+        return []
+    tokens, exp, _ = r
     return exp if tokens is not None else []
 
 
@@ -828,24 +1106,22 @@ def dgram_snapshot(conn):
     from aioquic import tls
     init = getattr(conn, "tls", None) is not None
     hseq = -1
-    for c in conn._host_cids:
-        if c.cid == conn.host_cid:
-            hseq = c.sequence_number
-    t = [STATE_NUM[conn._state.name], int(conn._close_pending), int(init), conn._configuration.connection_id_length,
-         conn._version or 0, int(conn._version_negotiated_incompatible), conn._retry_count, hseq]
-    vs = list(conn._configuration.supported_versions)
-    t += [len(vs)] + vs
+    for c in peek(lambda: list(conn._host_cids), [], "_host_cids"):
+        if peek(lambda: c.cid == conn.host_cid, False, "host_cid"):
+            hseq = peek(lambda: c.sequence_number, MISSING, "sequence_number")
+    t = [peek(lambda: STATE_NUM[conn._state.name], MISSING, "_state"), peek(lambda: int(conn._close_pending), MISSING, "_close_pending"),
+         int(init), peek(lambda: conn._configuration.connection_id_length, MISSING, "connection_id_length"),
+         peek(lambda: conn._version or 0, MISSING, "_version"),
+         peek(lambda: int(conn._version_negotiated_incompatible), MISSING, "_version_negotiated_incompatible"),
+         peek(lambda: conn._retry_count, MISSING, "_retry_count"), hseq]
+    t += peek_list(lambda: conn._configuration.supported_versions, "supported_versions")
     if init:
         full = snapshot_tokens(conn, 0, b"")
     else:
         # no streams / CRYPTO receivers / tls yet: the scalar part, empty lists, three empty receivers
-        mdf = conn._configuration.max_datagram_frame_size
-        full = [int(conn._is_client), conn._local_max_data.used, conn._local_max_data.value,
-                conn._local_max_streams_bidi.value, conn._local_max_streams_uni.value,
-                conn._local_max_stream_data_bidi_remote, conn._local_max_stream_data_uni,
-                -1 if mdf is None else mdf, conn._host_cid_seq, -1, conn._remote_active_connection_id_limit,
-                0, conn._peer_retire_prior_to, len(conn._retire_connection_ids), conn._local_active_connection_id_limit]
-        full += [len(conn._host_cids)] + [c.sequence_number for c in conn._host_cids] + [0, 0, 0, 0, 0] + [0]
+        full = _conn_scalars(conn, -1)
+        full[11] = 0
+        full += peek_list(lambda: (c.sequence_number for c in conn._host_cids), "_host_cids") + [0, 0, 0, 0, 0] + [0]
         full += [0, 0, 0, 0] * 3
         full += _tls_tokens_for(conn)
     return t + full
@@ -904,6 +1180,7 @@ def build_dgram(lab, parts):
     return out
 
 
+@tolerant("dgram")
 def dgram_observe(case):
     """-> (tokens, expected)"""
     k = _key(case)
@@ -1035,7 +1312,10 @@ def dgram_observe(case):
 
 
 def oracle_dgram(case):
-    tokens, exp, lab = dgram_observe(case)
+    r = dgram_observe(case)
+    if r is FAILED:
+        return None
+    tokens, exp, lab = r
     lab.pair.pump(lab.subject)
     lab.settle(max_time=20.0)
     probs = judge(lab)
@@ -1140,6 +1420,7 @@ def gen_dgram_cases(rng, n):
 
 # ------------------------------------------------------------------------------------------
 # close-branch tie: ConnClose.close_send (sizes, on C13's builder model) against the real datagrams_to_send()
+@tolerant("close")
 def close_observe(case):
     """case: {"side", "state": firstflight | connected, "token": n, "mds": n, "code", "ft": int | None, "reason": n, "ascii": bool}
     -> (tokens, expected [outcome, ndatagrams, lengths...])"""
@@ -1177,7 +1458,10 @@ def close_observe(case):
 
 
 def oracle_close(case):
-    _, exp = close_observe(case)
+    r = close_observe(case)
+    if r is FAILED:
+        return None
+    _, exp = r
     if exp[0] != 0:
         name = {1: "QuicPacketBuilderStop", 2: "BufferWriteError", 3: "AssertionError", 4: "AttributeError", 5: "ValueError",
                 6: "CryptoError"}.get(exp[0], "?")
@@ -1231,6 +1515,7 @@ DROP_WHY = {"initial_packet_datagram_too_small": 1, "unknown_connection_id": 2, 
             "non_initial_first_packet": 6}
 
 
+@tolerant("header")
 def header_observe(case):
     k = _key(case)
     if k in _CACHE:
@@ -1278,12 +1563,18 @@ def header_observe(case):
 
 
 def header_encode(case):
-    t, _, _ = header_observe(case)
+    r = header_observe(case)
+    if r is FAILED:
+        return [9]
+    t, _, _ = r
     return t if t is not None else [9]
 
 
 def header_impl(case):
-    t, exp, _ = header_observe(case)
+    r = header_observe(case)
+    if r is FAILED:
+        return []
+    t, exp, _ = r
     return exp if t is not None else []
 
 
@@ -1418,6 +1709,185 @@ def gen_frame_cases(rng, n):
     return cases
 
 
+# ------------------------------------------------------------------------------------------
+# (h) round s05c: frames placed AFTER the frame that completes a state transition, in the SAME packet.  A handler that
+# finishes a transition mid-packet (handshake completion + epoch discard, HANDSHAKE_DONE, a close, the last CRYPTO bytes of a
+# flight, NEW_CONNECTION_ID retiring the CID in use, RESET_STREAM / STOP_SENDING / FIN that finish a stream) leaves the frame
+# loop running: whatever follows in that packet is dispatched against the state AFTER the transition.  aioquic's own peer
+# never writes anything behind those frames, so only a generator produces this ordering.
+def _trailing_pool(rng, g, epoch, sid=None):
+    """one trailing frame (hex) for a packet of `epoch` -- legal and illegal types for that epoch"""
+    from sim import F
+    sid = rng.choice([0, 1, 2, 3, 4, 5, 8]) if sid is None else sid
+    x = rng.random()
+    if epoch != "1rtt":
+        pool = [F.ping(), F.ack([(0, 0)]), F.ack([(0, rng.choice([0, 1, 3]))]), F.padding(rng.choice([1, 3])), F.crypto(0, b""),
+                F.crypto(rng.choice([0, 1, 50, 1000]), g.data(rng.choice([0, 1, 4]))),
+                F.connection_close(rng.choice([0, 1, 10]), 0, b"x"), F.handshake_done(), F.path_response(bytes(8)),
+                F.stream(0, 0, b"hi"), F.new_connection_id(1, 0, bytes(8)), F.connection_close(0, app=True)]
+        return (rng.choice(pool) if x < 0.9 else g.frame()).hex()
+    pool = [F.ping(), F.ack([(0, 0)]), F.padding(2), F.crypto(0, b""), F.crypto(rng.choice([0, 1, 200]), g.data(rng.choice([0, 1, 4]))),
+            F.stream(sid, 0, b"abc"), F.stream(sid, rng.choice([0, 3, 10]), g.data(rng.choice([0, 2])), fin=rng.random() < 0.5),
+            F.stream(sid, 0, b"", fin=True), F.max_stream_data(sid, rng.choice([0, 10, 1 << 30])), F.stream_data_blocked(sid, 5),
+            F.reset_stream(sid, 0, rng.choice([0, 3, 10])), F.stop_sending(sid, 0), F.path_response(bytes(8)),
+            F.path_challenge(bytes(8)), F.handshake_done(), F.retire_connection_id(rng.choice([0, 1, 2, 7])),
+            F.new_connection_id(rng.choice([1, 2, 3, 9]), rng.choice([0, 1, 2]), bytes([7] * 8)), F.new_token(b"tok"),
+            F.max_data(1 << 30), F.max_streams(200), F.datagram(b"d"), F.connection_close(0, 0, b""),
+            F.connection_close(0, app=True)]
+    return (rng.choice(pool) if x < 0.85 else g.frame()).hex()
+
+
+def gen_trailing_frame_cases(rng, n):
+    """frames-tie cases ({spec, ops, epoch, frames}): [ ... transition-completing frame, trailing frame(s)] in one packet"""
+    from sim import F
+    g = Gen(rng)
+    cases = []
+
+    def trailing(epoch, k=None, sid=None):
+        return [_trailing_pool(rng, g, epoch, sid) for _ in range(rng.choice([1, 1, 2, 3]) if k is None else k)]
+
+    def crypto_trailing():
+        return rng.choice([["@fin_dup"], ["@end_empty"], ["@zero_empty"], ["@end_new:" + g.data(rng.choice([1, 4, 4])).hex()],
+                           ["@end_new:18000000"], ["@end_overlap:%d" % rng.choice([1, 4, 36])], ["@end_far:00"],
+                           ["@fin_dup", "@end_empty"], ["@held:all"]])
+
+    def add(side, state, epoch, frames, ops=(), opts=None, klass=""):
+        cases.append({"spec": spec(side, state, 100 + rng.randrange(8)), "ops": [list(o) for o in ops], "epoch": epoch,
+                      "frames": list(frames), "opts": dict(opts or {}), "klass": klass})
+
+    # 1. the end of the handshake (genuine flights, held back by the "finishing" world)
+    #    server: [client Finished, X]  -- the Finished completes the handshake and discards the Handshake epoch mid-packet
+    sure = [["@fin_dup"], ["@end_empty"], ["@end_new:18000000"], ["@zero_empty"], ["@end_overlap:4"]]
+    for i in range(max(10, n // 6)):
+        tr = sure[i] if i < len(sure) else (crypto_trailing() if rng.random() < 0.6 else trailing("handshake"))
+        pre = trailing("handshake", 1) if rng.random() < 0.2 else []
+        add("server", "finishing", "handshake", pre + ["@held:-1"] + tr, klass="after-client-finished")
+    #    client: [last packet of the server's flight (.. Finished), X]; [HANDSHAKE_DONE, X] in 1-RTT right after the flight (the
+    #    whole flight must have been delivered: without it the client has no 1-RTT keys and the packet is not read at all)
+    for i in range(max(10, n // 6)):
+        tr = sure[i] if i < len(sure) else (crypto_trailing() if rng.random() < 0.6 else trailing("handshake"))
+        add("client", "finishing", "handshake", ["@held:-1"] + tr, ops=[["pkt", "handshake", "@held:init"]],
+            klass="after-server-finished")
+    for i in range(max(8, n // 8)):
+        full = [["pkt", "handshake", "@held:init"], ["pkt", "handshake", "@held:-1"]]
+        tr = trailing("1rtt") if rng.random() < 0.7 else [F.crypto(0, b"").hex(), F.crypto(0, tls_msg(4, g.data(3))).hex()]
+        add("client", "finishing", "1rtt", [F.handshake_done().hex()] + tr, ops=full, klass="after-handshake-done")
+    # 2. established connections, 1-RTT
+    for i in range(n):
+        side = rng.choice(["client", "server"])
+        state = rng.choice(["connected", "connected", "keyupdated"])
+        peer_ids = [0, 4, 8, 2, 6] if side == "server" else [1, 5, 9, 3, 7]
+        own_ids = [1, 3] if side == "server" else [0, 2]
+        sid = rng.choice(peer_ids + peer_ids + own_ids)
+        ops = []
+        x = i % 8
+        if x == 0:      # a close by the peer: the loop goes on in DRAINING
+            first = [rng.choice([F.connection_close(rng.choice([0, 1, 0x128]), rng.choice([0, 6]), b"bye"),
+                                 F.connection_close(rng.choice([0, 77]), app=True)]).hex()]
+            klass = "after-connection-close"
+        elif x == 1:    # a frame that makes the endpoint itself close (the loop stops there: the rest must stay unread)
+            first = [rng.choice([varint(g.unknown_type()) + b"\x00", F.max_streams((1 << 60) + 1), F.stream(sid, B62, b"xx"),
+                                 F.new_token(b""), F.retire_connection_id(99)]).hex()]
+            klass = "after-error-frame"
+        elif x == 2:    # NEW_CONNECTION_ID retiring the CID in use (and more)
+            seq = rng.choice([1, 2, 3, 7])
+            first = [F.new_connection_id(seq, rng.choice([seq, seq, 1, seq - 1 if seq > 1 else 1]), bytes([seq] * 8)).hex()]
+            if rng.random() < 0.4:
+                ops.append(["pkt", "1rtt", F.new_connection_id(1, 0, bytes([1] * 8)).hex()])
+            klass = "after-new-connection-id-retiring"
+        elif x == 3:    # RESET_STREAM that finishes a stream
+            if rng.random() < 0.7:
+                ops.append(["pkt", "1rtt", F.stream(sid, 0, b"abc", fin=rng.random() < 0.3).hex()])
+            first = [F.reset_stream(sid, 0, rng.choice([0, 3, 3, 10])).hex()]
+            klass = "after-reset-stream"
+        elif x == 4:    # STOP_SENDING
+            if rng.random() < 0.7:
+                ops.append(["pkt", "1rtt", F.stream(sid, 0, b"abc").hex()])
+            first = [F.stop_sending(sid, 0).hex()]
+            klass = "after-stop-sending"
+        elif x == 5:    # FIN completes the receiving half
+            first = [F.stream(sid, 0, b"abc", fin=True).hex()]
+            klass = "after-stream-fin"
+        elif x == 6:    # HANDSHAKE_DONE (again) / a complete post-handshake TLS message: the last CRYPTO bytes of a flight
+            if rng.random() < 0.5:
+                first = [F.handshake_done().hex()]
+                klass = "after-handshake-done"
+            else:
+                msg = tls_msg(4, (3600).to_bytes(4, "big") + (1).to_bytes(4, "big") + b"\x00" + (16).to_bytes(2, "big") + bytes(16) +
+                              (0).to_bytes(2, "big")) if rng.random() < 0.7 else tls_msg(rng.choice([24, 20, 99]), g.data(3))
+                first = [F.crypto(0, msg).hex()]
+                ex = rng.choice([F.crypto(0, msg), F.crypto(len(msg), b""), F.crypto(0, b""), F.crypto(len(msg), g.data(4)),
+                                 F.crypto(len(msg) - 1, msg[-1:]), F.crypto(len(msg), msg)])
+                add(side, state, "1rtt", first + [ex.hex()] + (trailing("1rtt", 1, sid) if rng.random() < 0.3 else []), ops,
+                    klass="after-last-crypto-bytes")
+                continue
+        else:           # PATH_CHALLENGE / RETIRE_CONNECTION_ID of the CID in use / MAX_STREAMS, then more of the same kind
+            first = [rng.choice([F.path_challenge(bytes(8)), F.retire_connection_id(0), F.retire_connection_id(1)]).hex()]
+            klass = "after-path-or-retire"
+        opts = {"dcid_index": rng.randrange(8)} if (side == "server" and rng.random() < 0.15) else {}
+        pre = trailing("1rtt", 1, sid) if rng.random() < 0.15 else []
+        add(side, state, "1rtt", pre + first + trailing("1rtt", None, sid), ops, opts, klass)
+    return cases
+
+
+TRAIL_TRIGGERS = {
+    # subject side -> [(packet type of the hidden peer, frame that completes a transition, what it completes)]
+    "server": [("initial", "CRYPTO", "ClientHello: the last CRYPTO bytes of the first flight; handshake keys are installed"),
+               ("handshake", "CRYPTO", "client Finished: handshake complete, Handshake epoch discarded mid-packet")],
+    "client": [("initial", "CRYPTO", "ServerHello: handshake keys are installed mid-packet"),
+               ("handshake", "CRYPTO", "EncryptedExtensions .. Finished: handshake complete"),
+               ("1rtt", "HANDSHAKE_DONE", "handshake confirmed, Handshake epoch discarded mid-packet"),
+               ("1rtt", "NEW_CONNECTION_ID", "connection IDs issued right after the handshake")],
+}
+
+
+def gen_trailing_worlds(rng, n):
+    """whole real handshakes (both subject sides) in which the hidden real peer's own packets get trailing frames"""
+    g = Gen(rng)
+    crypto_items = [[["dup"]], [["empty"]], [["empty0"]], [["new", "18000000"]], [["overlap", 4]], [["far", "00"]],
+                    [["dup"], ["empty"]], [["new", "00"]]]
+    cases = []
+    combos = [(side, t) for side in ("server", "client") for t in TRAIL_TRIGGERS[side]]
+    i = 0
+    while len(cases) < n:
+        side, (ptype, after, _) = combos[i % len(combos)]
+        rnd = i // len(combos)
+        i += 1
+        if after == "CRYPTO" and rnd < len(crypto_items):
+            items = crypto_items[rnd]                       # every CRYPTO variant on every trigger first
+        elif after == "CRYPTO" and rng.random() < 0.4:
+            items = rng.choice(crypto_items)
+        else:
+            items = [["raw", _trailing_pool(rng, g, ptype)] for _ in range(rng.choice([1, 1, 2]))]
+            if rng.random() < 0.3:
+                items.insert(0, ["dup"])
+        tr = {"ptype": ptype, "after": after, "items": items, "where": rng.choice(["after", "after", "end"])}
+        if rng.random() < 0.25:
+            tr["nth"] = rng.choice([0, 0, 0, 1])
+        sp = spec(side, "trail", 800 + rng.randrange(6), trail=tr)
+        if rng.random() < 0.3:
+            sp["cert"] = "rsa"                              # a longer server flight (several Handshake packets)
+        cases.append({"spec": sp, "ops": [["run"]], "klass": "%s/%s/%s" % (side, ptype, after)})
+    return cases
+
+
+def run_trailing_worlds(ctx, rng, n, stats, report):
+    hist = collections.Counter()
+    applied = collections.Counter()
+    for case in gen_trailing_worlds(rng, n):
+        def f(case=case):
+            lab, probs = run_ops(case)
+            seen = lab.trail.seen
+            applied[case["klass"]] += seen["applied"]
+            report(probs, {"spec": case["spec"], "ops": case["ops"]}, "trailing-frames:" + case["klass"])
+        hist[case["klass"]] += 1
+        guarded_world("trailing-frames", case, f)
+        stats["worlds"] += 1
+    stats["trailing_worlds"] = dict(hist)
+    stats["trailing_packets_rewritten"] = dict(applied)
+    stats["protected_packets"] += sum(applied.values())
+
+
 def gen_header_cases(rng, n):
     cases = []
     for i in range(n):
@@ -1486,8 +1956,15 @@ def run_datagram_fuzz(ctx, rng, n_worlds, per_world, stats, report):
     for w in range(n_worlds):
         side, state = STATES[w % len(STATES)]
         sp = spec(side, state, 300 + rng.randrange(6))
-        lab = Lab(sp)
         ops = []
+        guarded_world("datagram-fuzz", lambda: {"spec": sp, "ops": ops},
+                      lambda: _datagram_fuzz_world(rng, sp, ops, per_world, stats, report))
+
+
+def _datagram_fuzz_world(rng, sp, ops, per_world, stats, report):
+    side, state = sp["side"], sp["state"]
+    if True:
+        lab = Lab(sp)
         peer_dir = "s2c" if side == "client" else "c2s"
         pool = [r.data for r in lab.pair.network.wire_log if r.direction == peer_dir and r.data][-12:]
         if lab.genuine and side == "server":
@@ -1791,6 +2268,68 @@ def flight_mutations(rng):
     return out
 
 
+def trailing_items(items, trig):
+    """frames placed after the trigger frame `trig` (a parsed sim.wire.Frame): ["dup"] the trigger once more; for a CRYPTO
+    trigger ["empty"] zero-length CRYPTO at its end, ["empty0"] zero-length at offset 0, ["new", hex] new bytes at its end,
+    ["overlap", n] its last n bytes again, ["far", hex] bytes 100 beyond its end; ["raw", hex] anything else"""
+    from sim import F
+    out = []
+    is_crypto = trig.name == "CRYPTO"
+    off = trig.fields.get("offset", 0) if is_crypto else 0
+    data = trig.fields.get("data", b"") if is_crypto else b""
+    end = off + len(data)
+    for it in items:
+        k = it[0]
+        if k == "dup":
+            out.append(trig.raw)
+        elif k == "empty":
+            out.append(F.crypto(end, b""))
+        elif k == "empty0":
+            out.append(F.crypto(0, b""))
+        elif k == "new":
+            out.append(F.crypto(end, bytes.fromhex(it[1])))
+        elif k == "far":
+            out.append(F.crypto(end + 100, bytes.fromhex(it[1])))
+        elif k == "overlap":
+            n = min(int(it[1]), len(data))
+            out.append(F.crypto(end - n, data[len(data) - n:]))
+        elif k == "raw":
+            out.append(bytes.fromhex(it[1]))
+        else:
+            raise ValueError("unknown trailing item %r" % (it,))
+    return out
+
+
+def make_trailing_rewrite(tr):
+    """HalfPair rewrite from a JSON description (so that a replay file rebuilds it): {"ptype": packet type, "after": frame name,
+    "items": [...], "where": "after" (right behind the LAST such frame of the packet) | "end" (behind every frame of the
+    packet), "nth": only the n-th matching packet (default: every one)}"""
+    seen = {"matched": 0, "applied": 0, "skipped_size": 0}
+
+    def rewrite(pkt):
+        if pkt.type != tr["ptype"]:
+            return None
+        frames = [f for f in pkt.frames if f.name != "PADDING"]
+        idx = [i for i, f in enumerate(frames) if f.name == tr["after"]]
+        if not idx:
+            return None
+        k = seen["matched"]
+        seen["matched"] += 1
+        if tr.get("nth") is not None and k != tr["nth"]:
+            return None
+        i = idx[-1]
+        trailing = trailing_items(tr["items"], frames[i])
+        raws = [f.raw for f in frames]
+        new = raws[:i + 1] + trailing + raws[i + 1:] if tr.get("where", "after") == "after" else raws + trailing
+        if sum(len(x) for x in new) > 1380:
+            seen["skipped_size"] += 1
+            return None
+        seen["applied"] += 1
+        return new
+    rewrite.seen = seen
+    return rewrite
+
+
 def make_flight_rewrite(mut):
     from sim import F
 
@@ -1881,6 +2420,10 @@ def run(ctx):
     stats = {"datagrams": 0, "worlds": 0, "states": collections.Counter(), "tls_messages": 0, "protected_packets": 0,
              "problem_signatures": collections.Counter(), "witness": {}}
     reported = {}
+    _HARNESS_CTX[0] = ctx
+    HARNESS_PROBLEMS.clear()
+    PEEK_MISSES.clear()
+    _FAILED.clear()
 
     def report(probs, case, suite):
         for what, sig in probs:
@@ -1903,26 +2446,40 @@ def run(ctx):
     patches = detect_patches()
     stats["tree_carries_fix"] = dict(patches)
 
+    def world(suite, case):
+        """one oracle world (run_ops + judge + report); harness exceptions are recorded for this case, the run continues"""
+        def f():
+            _, probs = run_ops(case)
+            report(probs, case, suite)
+            return probs
+        return guarded_world(suite, case, f)
+
     # 0. corpus + minimal witnesses of the documented findings (always first)
     for name, case in WITNESSES.items():
-        _, probs = run_ops(case)
-        stats["witness"][name] = [p[1] for p in probs]
-        report(probs, case, "witness:" + name)
+        probs = world("witness:" + name, case)
+        stats["witness"][name] = [p[1] for p in probs] if probs is not None else ["harness-failed"]
     for case in corr.load_corpus("C05", "oracle"):
-        _, probs = run_ops(case)
-        report(probs, case, "corpus")
+        world("corpus", case)
 
     phase("witnesses")
     # 1. model ties
-    fr = corr.Suite(ctx, "frames", "exec_c05", frames_encode, frames_impl, None,
-                    lambda c: c["frames"], lambda c, fs: dict(c, frames=fs),
-                    nontrivial=lambda c, out: len(c["frames"]) >= 1, opname=_frame_name)
-    hd = corr.Suite(ctx, "header", "exec_c05", header_encode, header_impl, None, None, None,
-                    nontrivial=lambda c, out: bool(out))
-    def once(f):
-        # one violation per distinct signature over the whole run (the suites report directly)
+    fr = TSuite(ctx, "frames", "exec_c05", frames_encode, frames_impl, None,
+                lambda c: c["frames"], lambda c, fs: dict(c, frames=fs),
+                nontrivial=lambda c, out: len(c["frames"]) >= 1, opname=_frame_name, observe=frames_observe)
+    hd = TSuite(ctx, "header", "exec_c05", header_encode, header_impl, None, None, None,
+                nontrivial=lambda c, out: bool(out), observe=header_observe)
+
+    def once(f, suite="oracle"):
+        # one violation per distinct signature over the whole run (the suites report directly); an exception inside the
+        # oracle's own (harness) code is a harness problem of this case, not a finding about the implementation
         def g(case):
-            bad = f(case)
+            try:
+                bad = f(case)
+            except core.BuildError:
+                raise
+            except Exception as e:  # noqa: BLE001
+                harness_problem(suite + "-oracle", case, e)
+                return None
             if not bad:
                 return None
             key = json.dumps(bad[1], sort_keys=True)
@@ -1932,20 +2489,21 @@ def run(ctx):
             reported[key] = True
             return bad
         return g
-    fr.oracle = once(oracle_frames)
-    hd.oracle = once(oracle)
-    tm = corr.Suite(ctx, "tlsmsg", "exec_tlsrecv", c05_tlsmsg.encode, c05_tlsmsg.impl, None, None, None,
-                    nontrivial=lambda c, out: bool(c.get("data") or c.get("genuine")), opname=None)
-    tm.oracle = once(lambda c: c05_tlsmsg.oracle(c, exc_site))
-    cl = corr.Suite(ctx, "close", "exec_close", lambda c: close_observe(c)[0], lambda c: close_observe(c)[1], None, None, None,
-                    nontrivial=lambda c, out: True)
-    cl.oracle = once(oracle_close)
+    fr.oracle, fr.raw_oracle = once(oracle_frames, "frames"), oracle_frames
+    hd.oracle, hd.raw_oracle = once(oracle, "header"), oracle
+    tm = TSuite(ctx, "tlsmsg", "exec_tlsrecv", c05_tlsmsg.encode, c05_tlsmsg.impl, None, None, None,
+                nontrivial=lambda c, out: bool(c.get("data") or c.get("genuine")), opname=None, observe=tls_observe)
+    tm.raw_oracle = lambda c: c05_tlsmsg.oracle(c, exc_site)
+    tm.oracle = once(tm.raw_oracle, "tlsmsg")
+    cl = TSuite(ctx, "close", "exec_close", lambda c: close_observe(c)[0], lambda c: close_observe(c)[1], None, None, None,
+                nontrivial=lambda c, out: True, observe=close_observe)
+    cl.oracle, cl.raw_oracle = once(oracle_close, "close"), oracle_close
     cl.run(corr.load_corpus("C05", "close"), "corpus")
     cl.run(gen_close_cases(rng, ctx.n(250, 6000)))
     _CACHE.clear()
-    dg = corr.Suite(ctx, "dgram", "exec_dgram", lambda c: dgram_observe(c)[0], lambda c: dgram_observe(c)[1], None, None, None,
-                    nontrivial=lambda c, out: len(out) > 8)
-    dg.oracle = once(oracle_dgram)
+    dg = TSuite(ctx, "dgram", "exec_dgram", lambda c: dgram_observe(c)[0], lambda c: dgram_observe(c)[1], None, None, None,
+                nontrivial=lambda c, out: len(out) > 8, observe=dgram_observe)
+    dg.oracle, dg.raw_oracle = once(oracle_dgram, "dgram"), oracle_dgram
     dg.run(corr.load_corpus("C05", "dgram"), "corpus")
     dcases = gen_dgram_cases(rng, ctx.n(600, 12000))
     for i in range(0, len(dcases), 300):
@@ -1955,6 +2513,13 @@ def run(ctx):
     phase("close+dgram ties")
     fr.run(corr.load_corpus("C05", "frames"), "corpus")
     hd.run(corr.load_corpus("C05", "header"), "corpus")
+    tcases_ = gen_trailing_frame_cases(rng, ctx.n(400, 4000))
+    thist = collections.Counter(c.pop("klass") for c in tcases_)
+    stats["trailing_frame_cases"] = dict(thist)
+    fr.run(tcases_)
+    _CACHE.clear()
+    stats["protected_packets"] += sum(1 + len(c["ops"]) for c in tcases_)
+    phase("trailing frames tie")
     fcases = gen_frame_cases(rng, ctx.n(5000, 60000))
     for i in range(0, len(fcases), 1000):
         fr.run(fcases[i:i + 1000])
@@ -1967,6 +2532,8 @@ def run(ctx):
         part = tcases[i:i + 1500]
         tm.run(part)
         for c in part:
+            if tls_observe(c) is FAILED:
+                continue
             tm.stats["op_histogram"][c05_tlsmsg.op_name(c)] += 1
             tm.stats["outcome_histogram"][json.dumps(c05_tlsmsg.impl(c)[:2])] += 1
         c05_tlsmsg._OBS.clear()
@@ -1993,12 +2560,16 @@ def run(ctx):
     run_ack_games(ctx, rng, ctx.n(120, 1600), stats, report)
     phase("ack games")
 
+    # 3b'. whole handshakes with trailing frames behind the transition-completing frame of the real peer's own packets
+    run_trailing_worlds(ctx, rng, ctx.n(160, 1600), stats, report)
+    phase("trailing worlds")
+
     # 3c. network-path table games: many source addresses, validations, promotion back, then one more packet
-    pt = corr.Suite(ctx, "paths", "exec_paths", path_tie_encode, path_tie_impl, None,
-                    lambda c: c["ops"], lambda c, ops: dict(c, ops=ops),
-                    nontrivial=lambda c, out: len(out) > 12,
-                    opname=lambda o: o[0] + (":" + o[2] if o[0] == "path" else ""))
-    pt.oracle = once(oracle)
+    pt = TSuite(ctx, "paths", "exec_paths", path_tie_encode, path_tie_impl, None,
+                lambda c: c["ops"], lambda c, ops: dict(c, ops=ops),
+                nontrivial=lambda c, out: len(out) > 12,
+                opname=lambda o: o[0] + (":" + o[2] if o[0] == "path" else ""), observe=path_observe)
+    pt.oracle, pt.raw_oracle = once(oracle, "paths"), oracle
     run_path_games(ctx, rng, ctx.n(96, 1500), stats, report, pt)
     phase("path games")
 
@@ -2012,6 +2583,15 @@ def run(ctx):
     phase("retry worlds")
 
     stats["frames_tls_layer"] = dict(FR_TLS)
+    # tolerance bookkeeping: labelled peeks that could not read the private state, harness exceptions per case
+    misses = collections.Counter(PEEK_MISSES)
+    misses.update(c05_tlsmsg.PEEK_MISSES)
+    misses.update(c05_paths.PEEK_MISSES)
+    stats["peek_misses"] = dict(misses)
+    stats["harness_problems"] = dict(HARNESS_PROBLEMS)
+    stats["harness_failed_cases"] = {s_.name: s_.harness_failed for s_ in (fr, hd, tm, cl, dg, pt)}
+    stats["tie_disagreements_on_reported_impl_violations"] = {s_.name: dict(s_.dup_of_reported) for s_ in (fr, hd, tm, cl, dg, pt)
+                                                              if s_.dup_of_reported}
     extra = {"volume": {k: (dict(v) if isinstance(v, collections.Counter) else v) for k, v in stats.items()},
              "packets_total": stats["datagrams"] + stats["protected_packets"] + stats["tls_messages"]}
     cov = corr.merge_coverage(
@@ -2032,6 +2612,8 @@ def run(ctx):
 
 
 def _frame_name(fhex):
+    if fhex.startswith("@"):
+        return fhex.partition(":")[0]
     b = bytes.fromhex(fhex)
     if not b:
         return "empty"
@@ -2043,13 +2625,16 @@ def _frame_name(fhex):
 
 def oracle_frames(case):
     """the property itself on a frames case: nothing escapes, any later API call included"""
-    tokens, exp, later = frames_observe(case)
+    r = frames_observe(case)
+    if r is FAILED:
+        return None
+    tokens, exp, later = r
     if exp and exp[0] == 3:
         k = _key(case)
         lab = Lab(case["spec"])
         for op in case["ops"]:
             lab.apply(op)
-        lab.send_packet(case["epoch"], b"".join(bytes.fromhex(f) for f in case["frames"]), case.get("opts", {}))
+        lab.send_packet(case["epoch"], lab.resolve(case["frames"]), case.get("opts", {}))
         probs = judge(lab)
         return probs[0] if probs else ("exception escaped receive_datagram", {"exception": "?", "site": "?"})
     if later:
@@ -2064,8 +2649,15 @@ def run_sessions(ctx, rng, n, stats, report):
         side, state = rng.choice([("client", "connected"), ("server", "connected"), ("client", "keyupdated"),
                                   ("server", "keyupdated"), ("client", "handshake"), ("server", "handshake")])
         sp = spec(side, state, 400 + rng.randrange(6), dgram=rng.random() < 0.8)
-        lab = Lab(sp)
         ops = []
+        guarded_world("sessions", lambda: {"spec": sp, "ops": ops},
+                      lambda: _session_world(rng, g, sp, ops, stats, report))
+
+
+def _session_world(rng, g, sp, ops, stats, report):
+    side, state = sp["side"], sp["state"]
+    if True:
+        lab = Lab(sp)
         epochs = ["1rtt"] if state != "handshake" else ["initial", "handshake"]
         for j in range(rng.randint(5, 60)):
             x = rng.random()
@@ -2123,8 +2715,14 @@ def run_ack_games(ctx, rng, n, stats, report):
     for i in range(n):
         side, state, epoch = combos[i % len(combos)]
         sp = spec(side, state, 600 + rng.randrange(4))
-        lab = Lab(sp)
         ops = []
+        guarded_world("ack-games", lambda: {"spec": sp, "ops": ops},
+                      lambda: _ack_game_world(rng, g, i, combos, extras, sp, epoch, ops, stats, report))
+
+
+def _ack_game_world(rng, g, i, combos, extras, sp, epoch, ops, stats, report):
+    if True:
+        lab = Lab(sp)
 
         def do(op):
             ops.append(op)
@@ -2210,19 +2808,30 @@ def gen_path_cases(rng, n):
     return cases
 
 
+@tolerant("paths")
+def path_observe(case):
+    return c05_paths.tie_observe(case, Lab)
+
+
 def path_tie_encode(case):
-    return c05_paths.tie_observe(case, Lab)[0]
+    r = path_observe(case)
+    return [9] if r is FAILED else r[0]
 
 
 def path_tie_impl(case):
-    return c05_paths.tie_observe(case, Lab)[1]
+    r = path_observe(case)
+    return [] if r is FAILED else r[1]
+
+
+tls_observe = tolerant("tlsmsg")(c05_tlsmsg.observe)
 
 
 def run_path_games(ctx, rng, n, stats, report, suite):
     """(g) network-path table built up by long histories of migrations and validations, then one more packet
     (harness/props/c05_paths.py).  Every world is judged by the no-raise oracle + the table oracle (suite.oracle, minimised
     replay) and compared call by call with coq/model/ConnPaths.v (exec_paths)."""
-    cases = [dict(c, name=c.get("name", "corpus")) for c in corr.load_corpus("C05", "paths")] + gen_path_cases(rng, n)
+    cases = [dict(c, name=c.get("name", "corpus")) for c in corr.load_corpus("C05", "paths")] + \
+        (guarded_world("paths-setup", None, lambda: gen_path_cases(rng, n)) or [])
     hist = collections.Counter()
     for c in cases:
         nm = c["name"]
@@ -2238,9 +2847,7 @@ def run_path_games(ctx, rng, n, stats, report, suite):
         # no extracted model (the generated file / the model no longer builds): the oracle alone searches for a failing input
         stats["path_tie"] = "model unavailable: %s" % (str(e)[:200],)
         for c in cases:
-            _, probs = run_ops(c)
-            if probs:
-                report(probs, c, "path-games:" + c["name"])
+            oracle_world(report, "path-games:" + c["name"], c)
     pk = 0
     reached = collections.Counter()
     for v in c05_paths._TIE.values():
@@ -2274,17 +2881,22 @@ def run_retry(ctx, rng, stats, report):
                 ops.append(["api", "close"])
             ops += [["adv", 0.05], ["adv", 1.0]]
             case = {"spec": spec("client", "firstflight", 40 + rng.randrange(4)), "ops": ops}
-            _, probs = run_ops(case)
             n += 1
-            report(probs, case, "retry-token:%d:%s" % (size, name))
+            oracle_world(report, "retry-token:%d:%s" % (size, name), case)
     stats["retry_worlds"] = n
+
+
+def _genuine_client_hello():
+    lab0 = Lab(spec("server", "firstflight", 500))
+    ch_frames = [f for f in lab0.ch_pkt.frames if f.name == "CRYPTO"]
+    return b"".join(f.fields["data"] for f in ch_frames)
 
 
 def run_tls(ctx, rng, stats, report):
     # ClientHello -> fresh server (Initial keys are public: any host can send these)
-    lab0 = Lab(spec("server", "firstflight", 500))
-    ch_frames = [f for f in lab0.ch_pkt.frames if f.name == "CRYPTO"]
-    genuine_ch = b"".join(f.fields["data"] for f in ch_frames)
+    genuine_ch = guarded_world("tls-setup", {"spec": spec("server", "firstflight", 500), "ops": []}, _genuine_client_hello)
+    if genuine_ch is None:
+        return
     rounds = 1 if not ctx.thorough else 6
     for rnd in range(rounds):
         for name, ch in client_hello_variants(rng, genuine_ch).items():
@@ -2293,14 +2905,12 @@ def run_tls(ctx, rng, stats, report):
             for sv in confs:
                 sp = spec("server", "firstflight", 500) if sv is None else spec("server", "firstflight", 500, server_versions=sv)
                 case = {"spec": sp, "ops": [["ch", ch.hex()]], "variant": "ch:" + name}
-                _, probs = run_ops(case)
                 stats["tls_messages"] += 1
-                report(probs, case, "tls-client-hello:%s%s" % (name, "" if sv is None else "/server_versions=%s" % sv))
+                oracle_world(report, "tls-client-hello:%s%s" % (name, "" if sv is None else "/server_versions=%s" % sv), case)
         for name, sh in server_hello_variants(rng).items():
             case = {"spec": spec("client", "firstflight", 501), "ops": [["sh", sh.hex()]], "variant": "sh:" + name}
-            _, probs = run_ops(case)
             stats["tls_messages"] += 1
-            report(probs, case, "tls-server-hello:" + name)
+            oracle_world(report, "tls-server-hello:" + name, case)
         muts = flight_mutations(rng)
         for name, mut in muts.items():
             for cert in (None, "rsa"):
@@ -2310,20 +2920,21 @@ def run_tls(ctx, rng, stats, report):
                 case = {"spec": dict(sp), "ops": [["run"]], "variant": "flight:" + name}
                 sp2 = dict(sp)
                 sp2["rewrite"] = make_flight_rewrite(mut)
-                lab = Lab(sp2)
-                lab.apply(["run"])
-                lab.settle()
-                stats["tls_messages"] += 1
-                probs = judge(lab)
                 case["spec"].pop("rewrite", None)
                 case["flight_mutation"] = name
-                report(probs, case, "tls-flight:%s%s" % (name, "/rsa" if cert else ""))
+                stats["tls_messages"] += 1
+
+                def flight_world(sp2=sp2, case=case, name=name, cert=cert):
+                    lab = Lab(sp2)
+                    lab.apply(["run"])
+                    lab.settle()
+                    report(judge(lab), case, "tls-flight:%s%s" % (name, "/rsa" if cert else ""))
+                guarded_world("tls-flight", case, flight_world)
         for nsans, ln in ((1, 5), (5, 30), (14, 50), (25, 60), (40, 200)):
             case = {"spec": spec("client", "evilcert", 505, sans=nsans, san_len=ln), "ops": [["run"]],
                     "variant": "cert:%d_sans_of_%d" % (nsans, ln)}
-            _, probs = run_ops(case)
             stats["tls_messages"] += 1
-            report(probs, case, "tls-certificate-sans:%dx%d" % (nsans, ln))
+            oracle_world(report, "tls-certificate-sans:%dx%d" % (nsans, ln), case)
         # T10: a second ServerHello (CRYPTO continuing at the next offset) after a rejected one, received before the
         # application called datagrams_to_send(): the close is pending, the TLS engine half-updated
         for name in ("no_key_share", "unknown_group", "zero_x25519", "bad_suite"):
@@ -2335,26 +2946,22 @@ def run_tls(ctx, rng, stats, report):
             case = {"spec": spec("client", "firstflight", 501),
                     "ops": [["long", f1.hex(), {"pn": 1, "nopump": True}], ["long", f2.hex(), {"pn": 2, "nopump": True}]],
                     "variant": "sh-twice:" + name}
-            _, probs = run_ops(case)
             stats["tls_messages"] += 2
-            report(probs, case, "tls-server-hello-twice:" + name)
+            oracle_world(report, "tls-server-hello-twice:" + name, case)
         for evil in ("badsan", "wildcard", "ipdns", "emptydns"):
             case = {"spec": spec("client", "evilcert", 505, evil=evil), "ops": [["run"]], "variant": "cert:" + evil}
-            _, probs = run_ops(case)
             stats["tls_messages"] += 1
-            report(probs, case, "tls-certificate-" + evil)
+            oracle_world(report, "tls-certificate-" + evil, case)
         for name, (t, body) in post_handshake_messages(rng).items():
             for side in ("client", "server"):
                 case = {"spec": spec(side, "connected", 503), "ops": [["tls", "1rtt", t, body.hex()]], "variant": "post:" + name}
-                _, probs = run_ops(case)
                 stats["tls_messages"] += 1
-                report(probs, case, "tls-post-handshake:" + name)
+                oracle_world(report, "tls-post-handshake:" + name, case)
         # handshake-epoch messages to a server waiting for the client's Finished
         for name, (t, body) in post_handshake_messages(rng).items():
             case = {"spec": spec("server", "handshake", 504), "ops": [["tls", "handshake", t, body.hex()]], "variant": "hs:" + name}
-            _, probs = run_ops(case)
             stats["tls_messages"] += 1
-            report(probs, case, "tls-handshake-epoch:" + name)
+            oracle_world(report, "tls-handshake-epoch:" + name, case)
 
 
 def replay(ctx, rep):
@@ -2382,7 +2989,10 @@ def replay(ctx, rep):
         out["oracle"] = c05_tlsmsg.oracle(case, exc_site)
         return out
     if "frames" in case:
-        tokens, exp, later = frames_observe(case)
+        r = frames_observe(case)
+        if r is FAILED:
+            return {"error": "harness code raised while running this case", "harness_problems": dict(HARNESS_PROBLEMS)}
+        tokens, exp, later = r
         out["impl"] = exp
         out["model"] = core.run_model("exec_c05", [tokens], shards=1)[0] if tokens else None
         out["later_api_exceptions"] = later
